@@ -343,7 +343,27 @@ func (g *Gen) Next() Step {
 			subs := []string{"get", "set", "insert", "remove"}
 			st := Step{Op: op, C: c.CID, Sub: subs[r.Intn(4)], OOB: uint64(r.Pick([]int{6, 2, 1, 1})) * uint64(1+r.Intn(3))}
 			if r.Chance(0.25) {
-				st.End = []uint64{1 << 31, 1 << 32, 1<<63 - 1, 1 << 63, 1<<63 + 5, ^uint64(0) - 1, ^uint64(0)}[r.Intn(7)]
+				// absolute huge indexes, including ones that alias a valid index in 16-, 32- or 48-bit arithmetic
+				small := uint64(r.Intn(1 + c.Count()))
+				st.End = []uint64{1 << 31, 1 << 32, 1<<63 - 1, 1 << 63, 1<<63 + 5, ^uint64(0) - 1, ^uint64(0),
+					1<<32 + small, 1<<33 + small, 1<<48 + small, 1<<16 + small, 1<<63 + small, 1<<32 + small}[r.Intn(13)]
+				if st.End < uint64(c.Count()) {
+					st.End = 1<<32 + small
+				}
+			}
+			if (st.Sub == "set" || st.Sub == "insert") && r.Chance(0.3) {
+				// offer a detached-and-kept container of the same owner
+				var cands []int
+				for _, dc := range g.W.Model.Roots() {
+					if dc.Owner == c.Owner && dc != c.Root() && (!dc.IsMap || dc.Dig.Kind == "default") && g.detachedOnce[dc.CID] {
+						cands = append(cands, dc.CID)
+					}
+				}
+				if len(cands) > 0 {
+					id := cands[r.Intn(len(cands))]
+					st.V = &VSpec{Ref: &id}
+					return st
+				}
 			}
 			if (st.Sub == "set" || st.Sub == "insert") && r.Chance(0.6) {
 				limit := g.slotLimit(c)
